@@ -17,6 +17,7 @@ import (
 	"fmt"
 	"os"
 	"reflect"
+	"runtime/debug"
 	"sort"
 	"strings"
 	"sync"
@@ -54,6 +55,19 @@ type ctx struct {
 	seen     map[string]bool
 	dropped  map[string]map[string]bool // field → variants that dropped it
 	samples  *evid.Samples
+}
+
+// guard turns a panic of the repository's codec on a generated (or decoded) value into a
+// violation instead of a crash of the check.
+func (c *ctx) guard(kind, name string, f func()) {
+	defer func() {
+		if e := recover(); e != nil {
+			site := evid.PanicSite(debug.Stack())
+			c.r.Violate("C04|panic|"+site, fmt.Sprintf("encoding/decoding a well-formed or decoded value panics at %s: %v", site, e),
+				map[string]interface{}{"kind": kind, "case": name})
+		}
+	}()
+	f()
 }
 
 func (c *ctx) mark(k string) {
@@ -265,9 +279,9 @@ func (c *ctx) checkPrograms(tc txCase, b0 []byte, h0 common.Uint256) {
 	}
 	orig := tx.Programs()
 	var menus [][]*pg.Program
-	menus = append(menus, nil)                                                                         // all removed
+	menus = append(menus, nil)                                                                                                // all removed
 	menus = append(menus, append(append([]*pg.Program{}, orig...), &pg.Program{Code: []byte{1, 2, 3}, Parameter: []byte{9}})) // one added
-	menus = append(menus, []*pg.Program{{}})                                                           // one empty program
+	menus = append(menus, []*pg.Program{{}})                                                                                  // one empty program
 	for i := range orig {
 		// mutate code, mutate parameter, drop one
 		p := *orig[i]
@@ -374,14 +388,26 @@ func (c *ctx) checkSensitivity(tc txCase, v1 interfaces.Transaction, b0 []byte, 
 
 type stopRead struct{}
 
-// safeDecodeTx decodes a mutated transaction; the C02 defects (unbounded allocation from wire
-// counts) are kept out of this check by refusing counts above 2^16 at the reader.
+// safeDecodeTx decodes a mutated transaction. The C02 defects (allocation or loop bound taken
+// from an unchecked var-int) are kept out of this check: a var-int (discriminant 0xfd/0xfe/0xff
+// followed by its 2/4/8-byte value) of 2^20 or more stops the decode; such mutations are skipped.
 func safeDecodeTx(t *wire.Tracker) (v interface{}, err error) {
-	t.Guard = func(rd *wire.Rd, val uint64) {
-		if val >= 1<<24 && rd.N <= 8 {
-			// a mutated byte turned some count or length into a huge value; not this check's
-			// subject (C02)
-			panic(stopRead{})
+	prevDisc := false
+	t.OnRead = func(i int, rd *wire.Rd) {
+		if rd.Got != rd.N {
+			prevDisc = false
+			return
+		}
+		switch rd.N {
+		case 1:
+			prevDisc = t.Data[rd.Off] >= 0xfd
+		case 2, 4, 8:
+			if prevDisc && wire.LEValue(t.Data[rd.Off:rd.Off+rd.N]) >= 1<<20 {
+				panic(stopRead{})
+			}
+			prevDisc = false
+		default:
+			prevDisc = false
 		}
 	}
 	defer func() {
@@ -482,24 +508,15 @@ func genTxCases() []txCase {
 	var out []txCase
 	for _, t := range wire.TxTypes() {
 		for _, fl := range fillers() {
-			for _, pvar := range wire.PayloadVariants(t, fl.mk) {
-				// a payload version the encoder does not implement is outside "well-formed":
-				// keep only versions whose fully populated payload round-trips on its own bytes
-				vers := []common2.TransactionVersion{common2.TxVersion09}
-				if t < 0x09 {
-					vers = append(vers, common2.TxVersionDefault)
-				}
-				for _, ver := range vers {
-					for si, sh := range shapes(ver, fl.full) {
-						// fresh payload per case (Fill is deterministic)
-						pv := wire.PayloadVariants(t, fl.mk)
-						var p interfaces.Payload
-						for _, x := range pv {
-							if x.Label == pvar.Label {
-								p = x.Payload
-							}
-						}
-						tx := wire.NewTx(t, pvar.Version, p, sh, fl.mk())
+			vers := []common2.TransactionVersion{common2.TxVersion09}
+			if t < 0x09 {
+				vers = append(vers, common2.TxVersionDefault)
+			}
+			for _, ver := range vers {
+				for si, sh := range shapes(ver, fl.full) {
+					// fresh payload values per case (Fill is deterministic)
+					for _, pvar := range wire.PayloadVariants(t, fl.mk) {
+						tx := wire.NewTx(t, pvar.Version, pvar.Payload, sh, fl.mk())
 						out = append(out, txCase{name: fmt.Sprintf("%s(%02x)/%s/%s/v%d/shape%d", t.Name(), byte(t), pvar.Label, fl.name, ver, si), tx: tx, full: fl.full})
 					}
 				}
@@ -656,6 +673,7 @@ func (c *ctx) checkAmbiguity() ambig {
 			if err != nil {
 				continue
 			}
+			p = wire.CanonicalPayload(tt, pv, p)
 			tx := wire.NewTx(tt, pv, p, wire.TxShape{Version: ver, Inputs: 1, Outputs: []common2.OutputType{common2.OTNone}}, &wire.Filler{N: 1, Bool: true})
 			if ver >= common2.TxVersion09 {
 				// NewTx drops output payloads below version 9 only
@@ -672,7 +690,10 @@ func (c *ctx) checkAmbiguity() ambig {
 				d := vx.(interfaces.Transaction)
 				same = d.Version() == ver && d.TxType() == tt
 				if same {
-					ok, _ := wire.Equal(tx, d)
+					ok, df := wire.Equal(tx, d)
+					if !ok && os.Getenv("VERIF_C04_DEBUG") != "" {
+						fmt.Fprintln(os.Stderr, "pair diff", v, t, df)
+					}
 					same = ok && d.Hash() == tx.Hash()
 				}
 			}
@@ -721,9 +742,9 @@ func main() {
 		}
 		kept = append(kept, tc)
 	}
-	par.Go(len(kept), func(i int) { c.checkTx(kept[i]) })
+	par.Go(len(kept), func(i int) { c.guard("tx", kept[i].name, func() { c.checkTx(kept[i]) }) })
 	sers := genSerCases()
-	par.Go(len(sers), func(i int) { c.checkSer(sers[i]) })
+	par.Go(len(sers), func(i int) { c.guard("ser", sers[i].name, func() { c.checkSer(sers[i]) }) })
 	amb := c.checkAmbiguity()
 
 	// field survival: every exported payload field that was populated must come back in at
@@ -735,6 +756,13 @@ func main() {
 		}
 	}
 	sort.Strings(never)
+	if os.Getenv("VERIF_C04_DEBUG") != "" {
+		for p := range c.seen {
+			if strings.Contains(p, "ProducerInfo") {
+				fmt.Fprintln(os.Stderr, "field", p, "survived", c.survived[p], "dropped in", len(c.dropped[p]))
+			}
+		}
+	}
 	for _, p := range never {
 		var vs []string
 		for v := range c.dropped[p] {
@@ -806,7 +834,8 @@ func replay(c *ctx) {
 	case "ser":
 		for _, sc := range genSerCases() {
 			if sc.name == name {
-				c.checkSer(sc)
+				sc := sc
+				c.guard("ser", sc.name, func() { c.checkSer(sc) })
 			}
 		}
 	case "pair":
@@ -822,7 +851,8 @@ func replay(c *ctx) {
 	default:
 		for _, tc := range genTxCases() {
 			if tc.name == name {
-				c.checkTx(tc)
+				tc := tc
+				c.guard("tx", tc.name, func() { c.checkTx(tc) })
 			}
 		}
 	}
